@@ -276,7 +276,7 @@ class ReqGen:
                 return self.json_value(ty["l"], depth) if "l" not in unwrap_nn(ty["l"]) or True else None
             return [self.json_value(ty["l"], depth + 1) for _ in range(r.randint(0, 2))]
         b = ty["n"]
-        if b in ("String", "S1", "S2"): return r.choice(["jv", "jw"])
+        if b in ("String", "S1", "S2"): return r.choice(["jv", "jw", "jv", ""])       # (the empty string is a value like any other)
         if b == "E1": return r.choice(["A", "B", "C"])
         td = self.g.tdef(b)
         return {f["name"]: self.json_value(f["type"], depth + 1) for f in td["fields"] if is_nn(f["type"]) or r.random() < 0.6}
